@@ -59,10 +59,11 @@ func c17Modulus(g *g17, count int) {
 			if g.r.IntN(2) == 0 {
 				sx = cnat{new(big.Int).Neg(x.v), x.c}
 			}
-			g.emit(fmt.Sprintf("m.mod %s %s", ms, sx), func() string {
+			ro := g.reuse()
+			g.emit(fmt.Sprintf("%s %s %s", ro.op("m.mod"), ms, sx), func() string {
 				mod := mustModulus(m)
-				var r, ri numct.Nat
-				var sym numct.Int
+				r, ri := *ro.nat(m.BitLen()), *ro.nat(m.BitLen())
+				sym := *ro.int(m.BitLen())
 				mod.Mod(&r, x.nat())
 				mod.ModI(&ri, sx.int())
 				mod.ModSymmetric(&sym, x.nat())
@@ -71,8 +72,9 @@ func c17Modulus(g *g17, count int) {
 				return natS(&r) + "," + natS(&ri) + "," + sym.Big().Text(16)
 			})
 			if x.val().BitLen() <= 2*m.BitLen() { // Quo keeps BitLen(m) bits of the quotient
-				g.emit(fmt.Sprintf("m.quo %s %s", ms, x), func() string {
-					var q numct.Nat
+				rq := g.reuse()
+				g.emit(fmt.Sprintf("%s %s %s", rq.op("m.quo"), ms, x), func() string {
+					q := *rq.nat(x.c)
 					mustModulus(m).Quo(&q, x.nat())
 					return natS(&q)
 				})
@@ -80,11 +82,13 @@ func c17Modulus(g *g17, count int) {
 		case 3, 4, 5, 6: // ModAdd / ModSub / ModMul / ModNeg, output aliasing an input
 			x, y := g.opnd(m), g.opnd(m)
 			name := []string{"modadd", "modsub", "modmul", "modneg"}[op-3]
-			al := g.r.IntN(3)
-			g.emit(fmt.Sprintf("m.%s a%d %s %s %s", name, al, ms, x, y), func() string {
+			al := g.r.IntN(4)
+			ro := g.reuseIf(al == 3)
+			al %= 3
+			g.emit(fmt.Sprintf("%s a%d %s %s %s", ro.op("m."+name), al, ms, x, y), func() string {
 				mod := mustModulus(m)
 				a, b := x.nat(), y.nat()
-				out := new(numct.Nat)
+				out := ro.nat(m.BitLen())
 				if al == 1 {
 					out = a
 				} else if al == 2 {
@@ -110,11 +114,13 @@ func c17Modulus(g *g17, count int) {
 			})
 		case 7, 8, 9: // ModInv: inverse exactly for units
 			x := g.opnd(m)
-			al := g.r.IntN(2)
-			g.emit(fmt.Sprintf("m.modinv a%d %s %s", al, ms, x), func() string {
+			al := g.r.IntN(3)
+			ro := g.reuseIf(al == 2)
+			al %= 2
+			g.emit(fmt.Sprintf("%s a%d %s %s", ro.op("m.modinv"), al, ms, x), func() string {
 				mod := mustModulus(m)
 				a := x.nat()
-				out := new(numct.Nat)
+				out := ro.nat(m.BitLen())
 				if al == 1 {
 					out = a
 				}
@@ -127,8 +133,9 @@ func c17Modulus(g *g17, count int) {
 			})
 		case 10, 11: // ModDiv
 			x, y := g.opnd(m), g.opnd(m)
-			g.emit(fmt.Sprintf("m.moddiv %s %s %s", ms, x, y), func() string {
-				var out numct.Nat
+			ro := g.reuse()
+			g.emit(fmt.Sprintf("%s %s %s %s", ro.op("m.moddiv"), ms, x, y), func() string {
+				out := *ro.nat(m.BitLen())
 				if mustModulus(m).ModDiv(&out, x.nat(), y.nat()) != ct.True {
 					return "none"
 				}
@@ -153,8 +160,9 @@ func c17Modulus(g *g17, count int) {
 			if signed {
 				name = "m.modexpi"
 			}
-			g.emit(fmt.Sprintf("%s %s %s %s", name, ms, x, ee), func() string {
-				var out numct.Nat
+			ro := g.reuse()
+			g.emit(fmt.Sprintf("%s %s %s %s", ro.op(name), ms, x, ee), func() string {
+				out := *ro.nat(m.BitLen())
 				mod := mustModulus(m)
 				if signed {
 					mod.ModExpI(&out, x.nat(), ee.int())
@@ -176,10 +184,11 @@ func c17Modulus(g *g17, count int) {
 			}
 			e := g.natN(128)
 			ee := cnat{e, g.capGE(e)}
-			g.emit(fmt.Sprintf("m.multiexp %s %s %s", ms, joinComma(strs), ee), func() string {
+			ro := g.reuse()
+			g.emit(fmt.Sprintf("%s %s %s %s", ro.op("m.multiexp"), ms, joinComma(strs), ee), func() string {
 				bases, outs := make([]*numct.Nat, k), make([]*numct.Nat, k)
 				for i := range xs {
-					bases[i], outs[i] = xs[i].nat(), new(numct.Nat)
+					bases[i], outs[i] = xs[i].nat(), ro.nat(m.BitLen())
 				}
 				mustModulus(m).ModMultiBaseExp(outs, bases, ee.nat())
 				res := make([]*big.Int, k)
@@ -194,8 +203,12 @@ func c17Modulus(g *g17, count int) {
 				ms = "3"
 			}
 			x := g.opnd(m)
-			g.emit(fmt.Sprintf("m.modsqrt %s %s", ms, x), func() string {
+			ro := g.reuse()
+			g.emit(fmt.Sprintf("%s %s %s", ro.op("m.modsqrt"), ms, x), func() string {
 				out := numct.NewNat(7)
+				if ro.on {
+					out = ro.nat(m.BitLen())
+				}
 				if mustModulus(m).ModSqrt(out, x.nat()) != ct.True {
 					return "none"
 				}
@@ -279,10 +292,11 @@ func c17Modular(g *g17, count int) {
 		}
 		x, y := operand(), operand()
 		head := fmt.Sprintf("%s %s %s", kind, ps, qs)
+		ro := g.reuse()
 		switch g.r.IntN(9) {
 		case 0:
-			g.emit(fmt.Sprintf("ar.modmul %s %s %s", head, x, y), func() string {
-				var out numct.Nat
+			g.emit(fmt.Sprintf("%s %s %s %s", ro.op("ar.modmul"), head, x, y), func() string {
+				out := *ro.nat(mod.BitLen())
 				arith.ModMul(&out, x.nat(), y.nat())
 				g.xc("ar.modmul", out.Big(), new(big.Int).Mod(new(big.Int).Mul(x.val(), y.val()), mod))
 				return out.Big().Text(16)
@@ -294,8 +308,8 @@ func c17Modular(g *g17, count int) {
 				e.Add(e, bi(int64(g.r.IntN(3))-1))
 			}
 			ee := cnat{e, g.capGE(e)}
-			g.emit(fmt.Sprintf("ar.modexp %s %s %s", head, x, ee), func() string {
-				var out numct.Nat
+			g.emit(fmt.Sprintf("%s %s %s %s", ro.op("ar.modexp"), head, x, ee), func() string {
+				out := *ro.nat(mod.BitLen())
 				arith.ModExp(&out, x.nat(), ee.nat())
 				g.xc("ar.modexp", out.Big(), new(big.Int).Exp(x.val(), ee.val(), mod))
 				return out.Big().Text(16)
@@ -306,22 +320,22 @@ func c17Modular(g *g17, count int) {
 				e.Abs(e)
 			}
 			ee := cnat{e, g.capGE(e)}
-			g.emit(fmt.Sprintf("ar.modexpi %s %s %s", head, x, ee), func() string {
-				var out numct.Nat
+			g.emit(fmt.Sprintf("%s %s %s %s", ro.op("ar.modexpi"), head, x, ee), func() string {
+				out := *ro.nat(mod.BitLen())
 				arith.ModExpI(&out, x.nat(), ee.int())
 				return out.Big().Text(16)
 			})
 		case 4, 5:
-			g.emit(fmt.Sprintf("ar.modinv %s %s", head, x), func() string {
-				var out numct.Nat
+			g.emit(fmt.Sprintf("%s %s %s", ro.op("ar.modinv"), head, x), func() string {
+				out := *ro.nat(mod.BitLen())
 				if arith.ModInv(&out, x.nat()) != ct.True {
 					return "none"
 				}
 				return "ok:" + out.Big().Text(16)
 			})
 		case 6:
-			g.emit(fmt.Sprintf("ar.moddiv %s %s %s", head, x, y), func() string {
-				var out numct.Nat
+			g.emit(fmt.Sprintf("%s %s %s %s", ro.op("ar.moddiv"), head, x, y), func() string {
+				out := *ro.nat(mod.BitLen())
 				if arith.ModDiv(&out, x.nat(), y.nat()) != ct.True {
 					return "none"
 				}
@@ -330,8 +344,8 @@ func c17Modular(g *g17, count int) {
 		case 7:
 			e := g.natN(128)
 			ee := cnat{e, g.capGE(e)}
-			g.emit(fmt.Sprintf("ar.multiexp %s %s,%s %s", head, x, y, ee), func() string {
-				outs := []*numct.Nat{new(numct.Nat), new(numct.Nat)}
+			g.emit(fmt.Sprintf("%s %s %s,%s %s", ro.op("ar.multiexp"), head, x, y, ee), func() string {
+				outs := []*numct.Nat{ro.nat(mod.BitLen()), ro.nat(mod.BitLen())}
 				arith.MultiBaseExp(outs, []*numct.Nat{x.nat(), y.nat()}, ee.nat())
 				return c17hexList([]*big.Int{outs[0].Big(), outs[1].Big()})
 			})
@@ -387,8 +401,8 @@ func c17Modular(g *g17, count int) {
 			if s, ok := modular.NewOddPrimeSquareFactors(pn, qn); ok == ct.True {
 				xx := cnat{g.residue(nn), 0}
 				xx.c = g.capGE(xx.v)
-				g.emit(fmt.Sprintf("ar.exptoN %s %s %s", ps, qs, xx), func() string {
-					var out numct.Nat
+				g.emit(fmt.Sprintf("%s %s %s %s", ro.op("ar.exptoN"), ps, qs, xx), func() string {
+					out := *ro.nat(nn.BitLen())
 					s.ExpToN(&out, xx.nat())
 					g.xc("ar.exptoN", out.Big(), new(big.Int).Exp(xx.val(), n, nn))
 					return out.Big().Text(16)
